@@ -21,9 +21,10 @@ Spaces(n) == [k \in 1..n |-> " "]
 E(k, v, style, aid, tag) == [k |-> k, v |-> v, style |-> style, aid |-> aid, tag |-> tag]
 E0(k) == E(k, <<>>, "", 0, <<>>)
 Null == E("Scalar", <<"~">>, "plain", 0, <<>>)
-R(txt, evs, st) == [txt |-> txt, evs |-> evs, i |-> st.i, na |-> st.na, av |-> st.av]
-St(i, na, av) == [i |-> i, na |-> na, av |-> av]
-StOf(r) == St(r.i, r.na, r.av)
+R(txt, evs, st) == [txt |-> txt, evs |-> evs, i |-> st.i, na |-> st.na, av |-> st.av, sec |-> st.sec]
+\* sec: the prefix the current document gave to the secondary handle "!!" with a %TAG directive (<<>> = the default)
+St(i, na, av) == [i |-> i, na |-> na, av |-> av, sec |-> <<>>]
+StOf(r) == [i |-> r.i, na |-> r.na, av |-> r.av, sec |-> r.sec]
 Adv(st, k) == [st EXCEPT !.i = @ + k]
 
 YamlTag == <<"t", "a", "g", ":", "y", "a", "m", "l", ".", "o", "r", "g", ",", "2", "0", "0", "2", ":">>
@@ -66,7 +67,7 @@ Props(t, st, allow) ==
       st1 == Adv(st, 1)
       an == <<"&">> \o AnchorName(st.na)
       tg1 == <<"!", "t">>  tv1 == << <<"!">>, <<"t">> >>
-      tg2 == <<"!", "!", "s", "t", "r">>  tv2 == << YamlTag, <<"s", "t", "r">> >>
+      tg2 == <<"!", "!", "s", "t", "r">>  tv2 == << (IF st.sec = <<>> THEN YamlTag ELSE st.sec), <<"s", "t", "r">> >>
   IN IF c = 1 THEN [txt |-> an \o <<" ">>, aid |-> st.na, tag |-> <<>>, st |-> [st1 EXCEPT !.na = @ + 1]]
      ELSE IF c = 2 THEN [txt |-> tg1 \o <<" ">>, aid |-> 0, tag |-> tv1, st |-> st1]
      ELSE IF c = 3 THEN [txt |-> tg2 \o <<" ">>, aid |-> 0, tag |-> tv2, st |-> st1]
@@ -314,11 +315,13 @@ BlockMap(t, st, n, inl, d, props) ==
 
 \* ---- documents ----
 \* one document: returns R; `first` = it is the first document of the stream (may be bare)
+SecPrefix == <<"t", "a", "g", ":", "x", ":">>
 Doc(t, st, D, first, prevOpen) ==
   LET c == (Cell(t, st.i) % 8)
       explicit == ~first \/ c >= 4 \/ prevOpen
       yamlDir == explicit /\ ~prevOpen /\ (Cell(t, st.i + 1) % 4) = 3
-      st1 == [Adv(st, 2) EXCEPT !.av = <<>>]
+      tagDir == explicit /\ ~prevOpen /\ ((Cell(t, st.i + 1) \div 4) % 4) = 2          \* %TAG !! tag:x: -- for this document only
+      st1 == [Adv(st, 2) EXCEPT !.av = <<>>, !.sec = IF tagDir THEN SecPrefix ELSE <<>>]
       kind == (Cell(t, st1.i) % 8)
       body == IF kind \in {0, 1} THEN BlockSeq(t, Adv(st1, 1), 0, FALSE, D, <<>>)
               ELSE IF kind \in {2, 3} THEN BlockMap(t, Adv(st1, 1), 0, FALSE, D, <<>>)
@@ -330,6 +333,7 @@ Doc(t, st, D, first, prevOpen) ==
       rootBlock == kind = 7 /\ explicit /\ (Cell(t, st1.i + 1) % 2) = 1
       sameLine == explicit /\ kind \in {4, 5, 7} /\ (Cell(t, body.i) % 2) = 1      \* "--- node" on the marker line
       head == (IF yamlDir THEN <<"%", "Y", "A", "M", "L", " ", "1", ".", "2", "\n">> ELSE <<>>)
+              \o (IF tagDir THEN <<"%", "T", "A", "G", " ", "!", "!", " ">> \o SecPrefix \o <<"\n">> ELSE <<>>)
               \o (IF explicit THEN <<"-", "-", "-">> \o (IF rootBlock THEN <<>> ELSE IF sameLine THEN <<" ">> ELSE Eol(Cell(t, body.i + 1))) ELSE <<>>)
       endMark == (Cell(t, body.i + 2) % 4) = 3
       tail == IF endMark THEN <<".", ".", ".">> \o Eol(Cell(t, body.i + 3)) ELSE <<>>
@@ -343,7 +347,7 @@ RECURSIVE Docs(_, _, _, _, _)
 Docs(t, st, D, k, first) ==
   IF k = 0 THEN [txt |-> <<>>, evs |-> <<>>, i |-> st.i]
   ELSE LET d == Doc(t, st, D, first, FALSE)
-           rest == Docs(t, St(d.i, d.na, <<>>), D, k - 1, FALSE)
+           rest == Docs(t, St(d.i, d.na, <<>>), D, k - 1, d.ended)        \* after "..." the next document may be bare
            needEnd == k > 1 /\ ~d.ended /\ Len(rest.txt) > 0 /\ rest.txt[1] = "%"
        IN [txt |-> d.txt \o (IF needEnd THEN <<".", ".", ".", "\n">> ELSE <<>>) \o rest.txt, evs |-> d.evs \o rest.evs, i |-> rest.i]
 Stream(t, D) ==
